@@ -1,6 +1,7 @@
 import AtreeProofs.WorldCodec.StorOk
 import AtreeProofs.WorldCodec.SlabOk
 import AtreeProofs.WorldCodec.Link
+import AtreeProofs.E2EMapBytesSpec
 /-
   What is proved of ONE heap slab of a world (`World.slabAt id = some ws`), and the side conditions.
   DEFINITIONS ONLY - part of the statement of `AtreeProofs/Props/C07World.lean`.
@@ -18,11 +19,13 @@ def WSlab.size : WSlab → Nat
   | .map (.group g) _ => g.hdr.size
 
 /-- A REAL ASSUMPTION (audit a4-B7, decidable): an EXTERNAL collision-group slab (flag `anySize`: no
-    size band applies to it) is smaller than 64 KiB, so that its digest tables have fewer than 8192
-    entries and its last-level lists fewer than 65536 (`E2EM.fit_of_size`); the library does not
-    check this.  Every other slab is within the size band of C05. -/
+    size band applies to it) respects the field widths of the encoding (`E2EM.Fit`): fewer than 8192
+    digests per digest table (their byte string has a 16-bit length), fewer than 65536 entries per
+    last-level list, sizes within `uint32`; the library does not check this.  A group slab smaller
+    than 64 KiB always does (`E2EM.fit_of_size`).  Every other slab is
+    within the size band of C05, where these bounds are DERIVED. -/
 def WSlab.GroupFit : WSlab → Prop
-  | .map (.group g) _ => (MElems.ops 3).size g.elems < 65536
+  | .map (.group g) _ => E2EM.Fit 3 g.elems ∧ g.hdr.size ≤ maxUint32
   | _ => True
 
 instance (ws : WSlab) : Decidable ws.GroupFit := by
